@@ -23,8 +23,11 @@ for l in open(f'{root}/seeded/MATRIX.txt'):
     m = re.search(r'(C\d\d) exit=(\d+) violations=(\d+) :: ?(.*)', l)
     if m:
         seeded.append(dict(id=sid, prop=m.group(1), exit=int(m.group(2)), n=int(m.group(3)), first=m.group(4).strip()))
-caught = sum(1 for s in seeded if s['exit'] == 1)
-out.append(f'**Seeded changes (independent sub-agents): {caught} of {len(seeded)} caught by the quick check of the broken property.**\n')
+def neutral(sid):
+    return json.load(open(f'{root}/seeded/{sid}/meta.json')).get('neutralised_by')
+caught = sum(1 for s in seeded if s['exit'] == 1 and not neutral(s['id']))
+live = sum(1 for s in seeded if not neutral(s['id']))
+out.append(f'**Seeded changes (independent sub-agents): {caught} of {live} caught by the quick check of the broken property** ({len(seeded) - live} further change(s) no longer break their property on the repaired tree and are listed as neutralised).\n')
 out.append('| seeded change | what it does (see notes.md) | check | result | first violated clause |')
 out.append('|---|---|---|---|---|')
 for s in seeded:
@@ -38,6 +41,8 @@ for s in seeded:
             title = t; break
     title = meta.get('summary') or title
     res = 'caught' if s['exit'] == 1 else ('MISSED' if s['exit'] == 0 else f'exit {s["exit"]}')
+    if meta.get('neutralised_by'):
+        res = 'neutralised by fix ' + meta['neutralised_by'] + ' (no longer a break)'
     out.append(f'| {s["id"]} | {title[:110].replace("|", "/")} | {s["prop"]} | {res} | {clause(s["first"])} |')
     meta['detected_by'] = [s['prop']] if s['exit'] == 1 else []
     meta['latest_run_of_own_check'] = {'exit': s['exit'], 'violation_lines': s['n'], 'first_violation': s['first'][:300]}
@@ -57,4 +62,4 @@ if 'MATRIX-PLACEHOLDER' in d:
 else:
     d = re.sub(r'<!-- MATRIX-BEGIN -->.*?<!-- MATRIX-END -->', lambda m: block, d, flags=re.S)
 open(f'{root}/DESIGN.md', 'w').write(d)
-print('seeded caught', caught, 'of', len(seeded), '; own caught', c2, 'of', len(own))
+print('seeded caught', caught, 'of', live, '; own caught', c2, 'of', len(own))
